@@ -27,4 +27,8 @@ CASES = [
     dict(expect="silent", desc="take_last: queue emptiness spelled len()", edits=[dict(file=TL,
          old="            while q:", new="            while len(q) > 0:")]),
     dict(expect="silent", desc="pairwise: flag renamed", edits=[dict(file=PW, old="has_previous", new="seen_one", count=4)]),
+    dict(expect="fire", desc="seed C06/1: extrema_by uses `last_key is None` as its no-element-yet test", names="E4-element-truthiness", edits=[dict(file="reactivex/operators/_minby.py",
+         old="            if not has_value:\n                has_value = True\n                last_key = key", new="            if last_key is None:\n                has_value = True\n                last_key = key")]),
+    dict(expect="fire", desc="scan: accumulation truth-tested instead of has_accumulation", names="E4-element-truthiness", edits=[dict(file="reactivex/operators/_scan.py",
+         old="            if has_accumulation:", new="            if accumulation:")]),
 ]
